@@ -1,11 +1,68 @@
 (** Property C20 — auto-import completions add exactly the import to the template file.
-    OBLIGATIONS: C20_nonvacuous *)
-From GV Require Import Compiler.Compile.
+    The theorems are about Proxy/AddImport.v, the model of getPackageFromItemDetail / addImport
+    (tied to the Go functions by the L-ADDIMPORT correspondence of the C20 check); [imports_of] is the
+    line-level reading of a file head that the compiler's outer lexer implements (tied to the real lexer by
+    the apply-and-recompile oracle of the same check).
+    OBLIGATIONS: C20_group C20_single_lines C20_no_imports C20_exactly_one_more C20_detail_parse C20_nonvacuous *)
+From GV Require Import Proxy.AddImport Proofs.AddImportProofs.
+From Coq Require Import Sorting.Permutation.
 
+(** file has an import group: the edit inserts one item in front of the closing parenthesis; every other
+    import, before and after, is read exactly as before *)
+Theorem C20_group : forall lines q i,
+  quoted q -> scan lines 0 false None = FoundGroupEnd i ->
+  proxy_add_import lines q = (i, [9] ++ q ++ [10]) /\
+  imports_of (apply_insert lines i ([9] ++ q ++ [10])) =
+    imports_of (firstn i lines) ++ [q] ++ imports_of (skipn (S i) lines) /\
+  imports_of lines = imports_of (firstn i lines) ++ imports_of (skipn (S i) lines).
+Proof. exact add_import_group. Qed.
+Print Assumptions C20_group.
+
+(** file has single-line imports only: the new import follows the last one *)
+Theorem C20_single_lines : forall lines q k,
+  quoted q -> no_group lines -> scan lines 0 false None = ScanEnd (Some k) ->
+  proxy_add_import lines q = (S k, lit "import " ++ q ++ [10]) /\
+  (k < List.length lines)%nat /\
+  imports_of (apply_insert lines (S k) (lit "import " ++ q ++ [10])) =
+    imports_of (firstn (S k) lines) ++ [q] ++ imports_of (skipn (S k) lines) /\
+  imports_of lines = imports_of (firstn (S k) lines) ++ imports_of (skipn (S k) lines).
+Proof. exact add_import_single. Qed.
+Print Assumptions C20_single_lines.
+
+(** file has no imports: the import and a blank line go below the package clause and its blank line *)
+Theorem C20_no_imports : forall lines q,
+  quoted q -> no_group (firstn 2 lines) -> scan lines 0 false None = ScanEnd None ->
+  proxy_add_import lines q = (2%nat, lit "import " ++ q ++ [10] ++ [10]) /\
+  imports_of (apply_insert lines 2 (lit "import " ++ q ++ [10] ++ [10])) =
+    imports_of (firstn 2 lines) ++ [q] ++ imports_of (skipn 2 lines) /\
+  imports_of lines = imports_of (firstn 2 lines) ++ imports_of (skipn 2 lines).
+Proof. exact add_import_none. Qed.
+Print Assumptions C20_no_imports.
+
+(** hence, in each case, the edited file declares exactly the previous imports plus the new package *)
+Theorem C20_exactly_one_more : forall (before_ after_ : list bytes) (q : bytes) (new old : list bytes),
+  new = before_ ++ [q] ++ after_ -> old = before_ ++ after_ -> Permutation new (q :: old).
+Proof. intros b a q new old -> ->. apply Permutation_sym, Permutation_middle. Qed.
+Print Assumptions C20_exactly_one_more.
+
+(** the package is taken from a completion detail of the form  ... (from "path") *)
+Theorem C20_detail_parse : forall p, p <> [] -> ~ In 10 p ->
+  tail_matches (40 :: 102 :: 114 :: 111 :: 109 :: 32 :: 34 :: p ++ [34; 41]) = Some (34 :: p ++ [34]).
+Proof. exact tail_matches_exact. Qed.
+Print Assumptions C20_detail_parse.
+
+(** non-vacuity: comments before the package clause, an import group, a template whose body has a line
+    that looks like an import; and a detail string as gopls sends it *)
 Example C20_nonvacuous :
-  match compile_parse (lit "package x" ++ [10] ++ lit "import ""fmt""" ++ [10] ++ lit "import ""os""" ++ [10]) with
-  | ODone (Node (KRoot _ imps) _) None => Nat.eqb (List.length imps) 2
-  | _ => false
-  end = true.
-Proof. vm_compute. reflexivity. Qed.
+  let lines := [lit "// c1"; lit "// c2"; lit "package x"; []; lit "import ("; [9] ++ lit """fmt"""; lit ")"; [];
+                lit "@goht T() {"; [9] ++ lit "import ""text"""; lit "}"] in
+  let q := lit """math/rand""" in
+  quoted q /\ scan lines 0 false None = FoundGroupEnd 6 /\
+  imports_of (apply_insert lines 6 ([9] ++ q ++ [10])) = [lit """fmt"""; q] /\
+  detail_package (lit "func(n int) int (from ""math/rand"")") = q.
+Proof.
+  cbv zeta. repeat split; try (vm_compute; reflexivity).
+  - eexists. reflexivity.
+  - vm_compute. intuition discriminate.
+Qed.
 Print Assumptions C20_nonvacuous.
